@@ -62,6 +62,11 @@ func (srvs servers) toInternal(
 			}
 
 			dnsSrv.DNSCrypt = dcConf
+			dnsSrv.UDPConf = &agd.UDPConfig{
+				// #nosec G115 -- The value has already been validated in
+				// [dnsConfig.validate].
+				MaxRespSize: uint16(dnsConf.MaxUDPResponseSize.Bytes()),
+			}
 		default:
 			dnsSrv.TCPConf = tcpConf
 			dnsSrv.QUICConf = &agd.QUICConfig{
